@@ -27,7 +27,9 @@ def run(ctx):
     d = 26 if quick else 36
     seed = {'pred': 'reach:tx1-applied-alone', 'depth': 28}
     ds = 22 if quick else 30
-    queries = [('reach', 36, ['reach:rollback-committed']), ('reach', 24, ['reach:rollback-refused'])] + [('bad', d, [b]) for b in bad]
+    queries = [('reach', 24, ['reach:rollback-refused'])] + [('bad', d, [b]) for b in bad]
+    if not quick:
+        queries.append(('reach', 36, ['reach:rollback-committed']))   # (quick: the waypoint query below is the witness)
     # waypoint: from a reachable state in which the first change has been applied, all continuations of ds steps
     queries += [('bad', ds, [b], seed) for b in bad] + [('reach', ds, ['reach:rollback-committed'], seed)]
     configs = [('1x2r', cfg, queries, ['c06', 'c01-abort'], {'cuts': False})]
